@@ -42,10 +42,11 @@ PROPOSALS = ("semi-adapted", "fully-adapted", "bootstrap")
 @st.composite
 def _case(draw, shard):
     via_run = shard % 4 == 3
+    via_cli = shard % 8 == 7
     n = draw(st.sampled_from([1, 2, 3, 5, 4]))
     dims = draw(st.sampled_from([1, 2, 3]))
     c = dict(
-        kind="run" if via_run else "chain",
+        kind=("cli" if via_cli else "run") if via_run else "chain",
         n=n,
         dims=dims,
         proposal=PROPOSALS[shard % 3],
@@ -123,7 +124,22 @@ def evaluate(case):
                     po.write_clusters(case["clusters"], cf)
                     n_expected = len(set(case["clusters"].values()))
                 out = os.path.join(td, "trace.pkl.gz")
-                run(inp, out, burnin=case["burnin"], cluster_file=cf, concentration_value=case["alpha"], concentration_update=case["conc_update"], density=case["density"], grid_size=11, max_time=max_time, num_iters=case["iters"], num_particles=case["N"], outlier_prob=case["outlier_prob"], precision=case["precision"], print_freq=100, proposal=case["proposal"], resample_threshold=case["thr"], seed=case["seed"], thin=case["thin"], num_chains=1, subtree_update_prob=case["subtree_prob"])
+                if case["kind"] == "cli":
+                    from vp.tracegen import run_cli
+
+                    args = ["run", "-i", inp, "-o", out, "--burnin", str(case["burnin"]), "--num-iters", str(case["iters"]), "--thin", str(case["thin"]), "--num-chains", "1",
+                            "--density", case["density"], "--outlier-prob", repr(case["outlier_prob"]), "--proposal", case["proposal"], "--max-time", "inf" if max_time == float("inf") else repr(max_time),
+                            "--concentration-update" if case["conc_update"] else "--no-concentration-update", "--concentration-value", repr(case["alpha"]), "--grid-size", "11",
+                            "--num-particles", str(case["N"]), "--subtree-update-prob", repr(case["subtree_prob"]), "--precision", repr(case["precision"]), "--resample-threshold", repr(case["thr"]), "--seed", str(case["seed"])]
+                    if cf is not None:
+                        args += ["--cluster-file", cf]
+                    ok, exc = run_cli(args)
+                    if not ok:
+                        if exc is not None and not isinstance(exc, SystemExit):
+                            raise exc
+                        raise Violation("cli/exit", "phyclone run exited with an error for accepted option values %r" % (args,), tags)
+                else:
+                  run(inp, out, burnin=case["burnin"], cluster_file=cf, concentration_value=case["alpha"], concentration_update=case["conc_update"], density=case["density"], grid_size=11, max_time=max_time, num_iters=case["iters"], num_particles=case["N"], outlier_prob=case["outlier_prob"], precision=case["precision"], print_freq=100, proposal=case["proposal"], resample_threshold=case["thr"], seed=case["seed"], thin=case["thin"], num_chains=1, subtree_update_prob=case["subtree_prob"])
                 with gzip.GzipFile(out, "rb") as fh:
                     trace = pickle.load(fh)[0]["trace"]
     except Violation:
